@@ -539,7 +539,18 @@ class Explorer:
         st.seq += 1
         ev = {'k': 'call', 'callee': name, 'decl': decl, 'args': args, 'bb': b, 'line': t['line'],
               'epoch': st.epoch, 'term': t, 'exp': t.get('exp', False), 'depth': fr.depth,
-              'in': fr.body.id}
+              'in': fr.body.id, 'site': site}
+        # values of the locals handed over by reference, as they are when the call is made
+        rv = {}
+        for i_, a_ in enumerate(args):
+            aa = strip_upd(a_)
+            if aa[0] == 'ref' and aa[1][0][0] == 'loc':
+                try:
+                    rv[i_] = self.load(st, fr, aa[1])
+                except Exception:
+                    pass
+        if rv:
+            ev['ref_vals'] = rv
         if 'def' not in t['callee']:
             fo = t['callee'].get('fnptr') or t['callee'].get('indirect')
             if fo is not None:
